@@ -1527,3 +1527,31 @@ def c11_phases_with_arith(ctx):
 
 
 REGISTRY["C11"]["phases"] = c11_phases_with_arith
+
+
+# ---- the repository's own test suite, recorded by the call-tracing hook and judged by TLC ------------------
+def repo_tests_phase(ctx, tag, features=()):
+    import repotests
+    return {"tag": tag + "-repo-test-suite", "groups": repotests.groups(ctx, features), "controls": False,
+            "space": "every keygen / sign / verify call the repository's own test suite makes (cargo test with --cfg hbs_lms_verif and "
+                     "HBS_LMS_VERIF_TRACE), judged byte for byte by TraceBytes"}
+
+
+def _with_repo_tests(prop, always):
+    inner = REGISTRY[prop]["phases"]
+
+    def phases(ctx):
+        ph = inner(ctx)
+        if always or ctx["tier"] != "quick":
+            ph.append(repo_tests_phase(ctx, prop.lower()))
+        return ph
+    REGISTRY[prop]["phases"] = phases
+    prev = REGISTRY[prop].get("coverage_extra")
+    REGISTRY[prop]["coverage_extra"] = (lambda ctx, cov: dict((prev(ctx, cov) if prev else {}) or {}, repo_test_suite_recorded=ctx.get("repo_tests")))
+
+
+_with_repo_tests("C07", True)      # byte-exact signatures: every signature the suite produces
+_with_repo_tests("C08", False)
+_with_repo_tests("C01", False)
+_with_repo_tests("C02", False)
+
